@@ -170,6 +170,22 @@ CHECKS = {
     design="3/C11", engine="symx+llsym",
     technique="2-safety by symbolic execution of the real Python (direct_model, details, kerneldll, kernelpy, product, mixture, sasview_model, generate.load_template) on z3 proxies with compiled kernels served by symbolic execution of their LLVM IR; retained buffers are fresh symbols; O1 renames all non-input symbols of one path and z3 decides that the pair of path conditions implies equal results; O2 is a z3 equality of before/after snapshots through a recording dict; replay on the real DLLs (fresh vs polluted objects bit for bit)",
     note="Structure (models, mesh shapes, prefix operations, q count) is enumerated; leaf interiors, C-side writes into const buffers, Gxi/SESANS, slit resolution, bumps, GPU kernels and module/template reload semantics (C17) are outside. Replays of entry points that allocate their kernel inside the call fix the content of np.empty memory to two chosen patterns."),
+ "C03": dict(
+    text="Bounded symbolic execution of the real resolution.py / resolution2d.py / DataMixin code on z3 proxies. With q, widths, lengths, user grids, scale and background "
+         "symbolic, and with up to 3 data points, 5 q_calc points and 3 extension points per side, z3 shows on every path that weights are non-negative and columns sum to "
+         "one, that q_calc is positive, increasing and spans every point's documented window outside the listed findings, that zero width is the identity, apply is linear, "
+         "scale and background pass through linearly, and nothing raises. Constructor results rest on the matrix-builder results through explicit assume/guarantee obligations.",
+    design="3/C03",
+    technique="symbolic execution of the real Python on z3 proxy values (own explorer); special functions uninterpreted with instantiated axioms, then abstracted to polynomial arithmetic and decided by z3/nlsat; counterexamples replayed with floats",
+    note="Rounding is outside the claim; grid-extension paths beyond 3 points are cut and counted. User-grid coverage, 2-D positivity and Slit2D are outside. Known findings (each blocked by an exact input constraint): swapped slit roles in Slit1D (repair rejected: test_simple_interface pins the value), low-q floor, single-point zero width, np.trapz, Slit2D keywords. Trusted: z3, symx, vlib/ressym.py."),
+ "C04": dict(
+    text="Code-level content only: for symbolic grids within the C03 bounds, every weight produced by the real builders is proved identical over the reals to the cell "
+         "measure of the documented kernel: truncated and renormalised Gaussian bin masses with sqrt(2) and the (-2.5,+3) sigma window, the sqrt(q'^2-q^2) slit bins with 1/L, "
+         "the slit-width bins with 1/2W and reflection at 0, the 61-point average, and the 2-D polar cloud aligned with q with Gaussian ring weights; apply is the weighted "
+         "sum/mean. The convergence-rate clause of the property is outside solver reach and is not checked.",
+    design="3/C04",
+    technique="same engine as C03: identities over the reals with special functions uninterpreted, decided by nlsat; counterexamples replayed with floats",
+    note="The limit/bound statement is argued only from the proved identities (paper). The slit-width reference accepts both documented readings of the boundary bins. One known finding (2-D cloud mirrored for qx<0)."),
 }
 
 NOT_YET = "check not built yet in this round (planned in DESIGN.md section 3); not claimed"
